@@ -17,6 +17,12 @@ def build(P):
     R.abstract_arn(P.reg)
     P.verify(D.ET + "asl_service_rpcmessage", D.rpcmessage_contract(), tags=("C03",), timeout=30)
     P.verify(D.ET + "asl_service_states_startExecution", D.start_execution_launch_contract(), tags=("C03",), timeout=30)
+    from contracts import transport as T
+    c = T.scoped(T.acknowledge_contract())
+    P.verify(c.key, c, tags=("C03",))
+    for w in ("asyncio", "blocking"):
+        c = T.message_ack_contract(w)
+        P.verify(c.key, c, tags=("C03",), timeout=30, label="Message.acknowledge.ack[%s]" % w, obl_prefix=w + ".Message.ack")
     P.native("quiescence-invariants", "natives.c01:corpus", kind="bounded", clause="C03:", timeout=900,
              bound="the C01 corpus (about 70 machines x 2 inputs x schedules) on the real engine + task dispatcher: at quiescence "
                    "nothing is unacknowledged, no join state / cancellers are left, no exception escaped")
